@@ -136,6 +136,28 @@ func ruleC10(c *Ctx) {
 			c.RequireFactsAtInstr("facts", fname(cva)+": first registration of a contract wins", mu, "lookup:protocol/state.ContractViewpoint.AttachEntries#1 = false")
 		}
 	}
+	// detach side: the walk is newest-first and every registration met overwrites the entry, so the
+	// oldest detached registration (the one the store holds) is what remains to be deleted — the update
+	// must not be guarded by "already present"
+	cvd := c.Func(pState, "(*ContractViewpoint).DetachBlock")
+	if cvd != nil {
+		n, bad := 0, ""
+		for _, mu := range mapUpdatesOf(cvd, "protocol/state.ContractViewpoint", "DetachEntries") {
+			n++
+			for ft := range factsAt(mu) {
+				if strings.HasPrefix(ft, "lookup:protocol/state.ContractViewpoint.DetachEntries") {
+					bad = "update at " + c.Pos(mu.Pos()) + " is conditioned on " + ft
+				}
+			}
+		}
+		c.Require("facts", fname(cvd)+": every detached registration overwrites the entry (the oldest one must win)", n >= 1 && bad == "", "%d update(s) %s", n, bad)
+	}
+	// a spent output that is still in the view is un-spent in place (its kind and height are kept);
+	// only an output that is absent is re-created
+	if ds != nil {
+		c.RequireFactsAtCalls("facts", ds, "(*database/storage.UtxoEntry).UnspendOutput", "lookup:protocol/state.UtxoViewpoint.Entries#1 = true")
+		c.RequireFactsAtCalls("facts", ds, "database/storage.NewUtxoEntry", "lookup:protocol/state.UtxoViewpoint.Entries#1 = false")
+	}
 	suv := c.Func("database", "saveUtxoView")
 	if suv != nil {
 		for _, s := range callsTo(suv, false, "(database/leveldb.Batch).Delete") {
@@ -384,6 +406,30 @@ func ruleC19(c *Ctx) {
 	c.RequireBatchAtomic("batchatomic", c.Func(st, "(*Store).SaveBlock"), st)
 	c.RequireBatchAtomic("batchatomic", c.Func(st, "(*Store).SaveCheckpoints"), st)
 	c.RequireBatchAtomic("batchatomic", c.Func(st, "(*Store).SaveChainStatus"), st)
+	// a block written to the store by a run that stopped before the chain status was committed is
+	// "known" but above the best block: re-delivery must process it again. processBlock may answer
+	// "already processed" only when the block exists AND is not above the best header.
+	if pb := c.Func(pProto, "(*Chain).processBlock"); pb != nil {
+		n, ok, d := 0, true, ""
+		for _, ri := range returnsOf(pb) {
+			if len(ri.Ret.Results) == 0 || !mentions(ri.Ret.Results[0], callsKey("(*protocol.OrphanManage).BlockExist"), 3, nil) {
+				continue
+			}
+			n++
+			have := factsAt(ri.Ret)
+			height := false
+			for ft := range have {
+				if strings.Contains(ft, ".Height@arg0.bestBlockHeader >= field:") && strings.Contains(ft, ".Height@arg1") {
+					height = true
+				}
+			}
+			if !have["call:(*protocol.Chain).BlockExist = true"] || !height {
+				ok = false
+				d = "return at " + c.Pos(retPos(ri.Ret)) + " lacks BlockExist = true ∧ best height ≥ block height; facts: " + factList(have)
+			}
+		}
+		c.Require("facts", fname(pb)+": a block is skipped as already processed only if it exists and is not above the best block", ok && n >= 1, "%d such return(s) %s", n, d)
+	}
 	ics := c.Func(pProto, "(*Chain).initChainStatus")
 	c.RequireOrder("order", ics, "(protocol/state.Store).SaveBlock", "(protocol/state.Store).SaveCheckpoints")
 	c.RequireOrder("order", ics, "(protocol/state.Store).SaveCheckpoints", kSaveCS)
@@ -491,6 +537,33 @@ func ruleC22(c *Ctx) {
 	po := c.Func(pProto, "(*TxPool).processOrphans")
 	c.RequireOrder("order", po, "(*protocol.TxPool).removeOrphan", "(*protocol.TxPool).addTransaction")
 	c.RequireFactsAtCalls("facts", po, "(*protocol.TxPool).addTransaction", "call:builtin:len == 0 | 0 == call:builtin:len")
+	// the promotion loop is a work list: orphans released by a promoted orphan are appended while
+	// the loop runs, so its exit test must look at the list again on every iteration (a `range`
+	// over the list evaluates its length once and never sees them)
+	if po != nil {
+		ok, d := false, "no loop around checkOrphanUtxos"
+		for _, s := range callsTo(po, false, "(*protocol.TxPool).checkOrphanUtxos") {
+			h, body := innermostLoop(s.Block())
+			if h == nil {
+				continue
+			}
+			d = "the loop's exit test does not re-read the work list's length inside the loop"
+			// exit tests: branches of the loop with a successor outside it
+			for blk := range body {
+				iff, isIf := blk.Instrs[len(blk.Instrs)-1].(*ssa.If)
+				if !isIf || (body[blk.Succs[0]] && body[blk.Succs[1]]) {
+					continue
+				}
+				if mentions(iff.Cond, func(v ssa.Value) bool {
+					cl, isC := v.(*ssa.Call)
+					return isC && calleeKey(cl) == "builtin:len" && body[cl.Block()]
+				}, 3, nil) {
+					ok, d = true, "exit test reads len(work list) in the loop"
+				}
+			}
+		}
+		c.Require("loopshape", fname(po)+": the promotion loop re-examines its work list on every iteration", ok, "%s", d)
+	}
 	pt := c.Func(pProto, "(*TxPool).processTransaction")
 	c.RequireFactsAtCalls("facts", pt, "(*protocol.TxPool).addOrphan", "call:builtin:len > 0 | 0 < call:builtin:len")
 	c.RequireOrder("order", pt, "(*protocol.TxPool).addTransaction", "(*protocol.TxPool).processOrphans")
